@@ -162,6 +162,8 @@ def check(src, rep):
         MAN = ce.module_value("obis_map", "FIELD_METER_MANUFACTURER")
     except Exception as e:  # NotConstant
         raise Undecided(f"obis_map tables not constant: {e}")
+    if not (isinstance(name_map, dict) and len(name_map) > 10):
+        raise Undecided("obis_map.obis_name_map could not be evaluated to its table (the module-level code that fills it is outside the evaluator)")
     known = [k for k in sorted(name_map) if k != "1.0.0"][:3]
     U, V, TXT, DT, U2 = Sym("unscaled", "int"), Sym("scaled", "Decimal"), Sym("text", "str"), Sym("clock", "datetime"), Sym("unscaled2", "int")
 
